@@ -51,7 +51,7 @@ def main():
         if getattr(mod, "COUNTS", None):
             from cases import count_thresholds
             count_thresholds(chk, mod.COUNTS)
-            chk.rule += ("; plus requests touching the last parts of records with 2^k-1, 2^k, 2^k+1 parts (k = 4 … 14), answered by a plain python selection")
+            chk.rule += ("; plus requests touching the last parts of records with 2^k-1, 2^k, 2^k+1 parts (k = 4 … 16; index × count beyond 2^31), answered by a plain python selection")
         if getattr(mod, "BIG_IO", None):
             # large inputs: the real binary against the library fed in small pieces (cases.big_io)
             from cases import big_io
